@@ -116,7 +116,7 @@ theorem whereLoop_ops (c : Cls) {S : List Node}
                   rw [hf] at hcy; cases hcy
           obtain ⟨h1, h2, h3⟩ := hend
           have step : Ops false S ks ks1 := Ops.of_groupTokens hk hg h1 h2 rfl
-            ⟨tidx, tok, Nat.le_refl _, h1, htok, nonws_of_trig (fun x hw => trig_where (Or.inl hw)) htrig⟩
+            ⟨tidx, tok, Nat.le_refl _, h1, htok, nonws_of_trig (fun x hw => trig_where (Or.inl hw)) htrig⟩ (by decide)
           obtain ⟨F1, hk1, _⟩ := step.suf F hk
           refine step.trans (ih _ _ _ h F1 hk1 ?_ (fun t2 tok2 hq => pend_of_nextBy _ _ hq))
           rcases hmode with hm | ⟨hS1, hin⟩
